@@ -174,7 +174,7 @@ def hdr10plus_cases(ctx, rng, work):
             for f in range(ln):
                 maxscl = [rng.below(100000) for _ in range(3)]
                 dist = sorted(rng.below(100000) for _ in range(9))
-                frames.append({"LuminanceParameters": {"AverageRGB": rng.below(20000),
+                frames.append({"LuminanceParameters": {"AverageRGB": rng.choice([rng.below(20000), rng.below(20000), rng.below(120), rng.below(40)]),
                                                        "LuminanceDistributions": {"DistributionIndex": [1, 5, 10, 25, 50, 75, 90, 95, 99],
                                                                                   "DistributionValues": dist},
                                                        "MaxScl": maxscl},
@@ -282,7 +282,7 @@ def compare_with_model(ctx, op, mlines):
             ctx.disagree(op, line[:5000], m[:300], impl[:300] + " | " + se)
 
 
-def gen_src_config(rng, nshots):
+def gen_src_config(rng, nshots, force_floor=False):
     """a config for the HDR10+ / madVR paths: `nshots` shots (their start/duration are ignored by the tool) carrying
     blocks of every level (L1 ones must be dropped by the merge) and frame edits at small offsets (duplicates included).
     Returns (json, compact form, clean) — `clean`: all blocks legal for the CM version."""
@@ -291,6 +291,9 @@ def gen_src_config(rng, nshots):
     clean = rng.chance(6, 7)
     LEGAL_P[0] = 4 if clean else 2
     cm = rng.choice(["V40", "V40", "V29", None])
+    if force_floor:
+        # the L1 average floor of the *other* CM version (819 under CM v4.0, 1229 under CM v2.9)
+        cm = rng.choice(["V40", None, "V29"])
     if cm:
         j["cm_version"] = cm; c.append("cm=%s" % cm[1:])
     prof = rng.choice([None, None, "5", "8.1", "8.4"])
@@ -298,7 +301,9 @@ def gen_src_config(rng, nshots):
         j["profile"] = prof; c.append("profile=%s" % prof.replace(".", ""))
     if rng.chance(1, 5):
         j["long_play_mode"] = True; c.append("lp=1")
-    if rng.chance(1, 4):
+    if force_floor:
+        v = "V40" if cm == "V29" else "V29"; j["l1_avg_pq_cm_version"] = v; c.append("l1cm=%s" % v[1:])
+    elif rng.chance(1, 4):
         v = rng.choice(["V29", "V40"]); j["l1_avg_pq_cm_version"] = v; c.append("l1cm=%s" % v[1:])
     if rng.chance(1, 4):
         v = [rng.choice([0, 100, 8191]) for _ in range(4)]
@@ -362,7 +367,16 @@ def madvr_cases(ctx, rng, work):
     for i in range(ncase):
         kind = rng.choice(MADVR_KINDS)
         spec = madvrgen.gen_spec(rng, kind)
-        cfg, compact, clean = gen_src_config(rng, rng.choice([0, 1, 2, 3]))
+        dark = i % 4 == 3
+        if dark and spec.get("frames"):
+            # dark scenes: every frame's average lands between the two L1 floors (819 / 1229)
+            for fr_ in spec["frames"]:
+                nb = len(fr_["lum"])
+                h_ = [0] * nb
+                h_[(17 + rng.below(8)) if nb == 256 else rng.choice([5, 6])] = 64000
+                fr_["lum"] = h_
+            ctx.count("madvr dark scenes with the other CM version's L1 floor")
+        cfg, compact, clean = gen_src_config(rng, rng.choice([0, 1, 2, 3]), force_floor=dark)
         custom = rng.chance(1, 2)
         popt = rng.choice([None, None, None, "5", "8.4"])
         lpopt = rng.choice([None, None, None, True, False])
@@ -500,7 +514,7 @@ def hdr10plus_malformed_cases(ctx, rng, work):
     for i in range(ncase):
         nfr = 1 + rng.below(8)
         kind = rng.choice(["empty-firsts", "decreasing", "short-lengths", "no-peak", "bad-sum", "duplicate-firsts", "beyond", "fine"])
-        frames = [{"LuminanceParameters": {"AverageRGB": rng.below(20000),
+        frames = [{"LuminanceParameters": {"AverageRGB": rng.choice([rng.below(20000), rng.below(20000), rng.below(120), rng.below(40)]),
                                            "LuminanceDistributions": {"DistributionIndex": [1, 5, 10, 25, 50, 75, 90, 95, 99],
                                                                       "DistributionValues": sorted(rng.below(100000) for _ in range(9))},
                                            "MaxScl": [rng.below(100000) for _ in range(3)]},
